@@ -179,6 +179,10 @@ def run_case(ctx, case):
                                     continue
                                 expected = list(cur[name])
                                 expected[pick] = value_repr_for(name, newv)
+                                # the current-attribute form addresses an instance by its value: when several instances
+                                # hold that value, any one of them is the addressed one
+                                expected = ('one-of', [list(cur[name][:i]) + [value_repr_for(name, newv)] + list(cur[name][i + 1:])
+                                                       for i in range(n_inst) if cur[name][i] == cur[name][pick]])
                             elif mode == 'wrongcurrent' or (mode == 'current' and name in MULTI):
                                 existing_ns = None
                                 if name == 'Application Specific Information' and n_inst:
@@ -350,7 +354,11 @@ def run_case(ctx, case):
                                       'from %s to %s' % (b['attrs'].get(name), a['attrs'].get(name)), detail)
                     elif expected is not None and not custom:
                         got = a['attrs'].get(name, [])
-                        if got != expected:
+                        if isinstance(expected, tuple) and expected[0] == 'one-of':
+                            if got not in expected[1]:
+                                ctx.violation(kbase + 'wrong-result', 'after a successful call %s is %s, expected one of %s'
+                                              % (name, got, expected[1]), detail)
+                        elif got != expected:
                             ctx.violation(kbase + 'wrong-result', 'after a successful call %s is %s, expected %s'
                                           % (name, got, expected), detail)
                     if len(ctx.samples) < 6 and rng.random() < 0.05:
